@@ -13,6 +13,8 @@ import (
 // as not panicking. They are reported in the evidence as trusted.
 var effectFreePrefixes = []string{
 	"k8s.io/klog/v2.",
+	"(github.com/kubewharf/kubebrain/pkg/metrics.Metrics).",
+	"github.com/kubewharf/kubebrain/pkg/metrics.Tag",
 	"(k8s.io/klog/v2.",
 	"fmt.Sprintf", "fmt.Errorf", "fmt.Sprint", "fmt.Sprintln",
 	"errors.New",
@@ -27,6 +29,8 @@ var effectFreePrefixes = []string{
 	"google.golang.org/grpc/status.", "google.golang.org/grpc/codes.",
 	"(*time.Ticker).", "time.NewTicker", "time.After", "time.Sleep",
 }
+
+const tagPlainErr = 1000001
 
 func returnsNonNilError(name string) bool {
 	switch name {
@@ -118,6 +122,9 @@ func (g *Gen) execCall(v ssa.Value, c *ssa.CallCommon, in ssa.Instruction, st St
 	}
 	name := calleeName(c)
 	if g.stdModel(v, name, c, in, st, reach) {
+		if ct, key := g.contractOfCall(c); ct != nil && ct.GhostOnly {
+			g.applyContract(nil, ct, key, c, in, st, reach)
+		}
 		return
 	}
 	ct, key := g.contractOfCall(c)
@@ -125,11 +132,28 @@ func (g *Gen) execCall(v ssa.Value, c *ssa.CallCommon, in ssa.Instruction, st St
 		g.applyContract(v, ct, key, c, in, st, reach)
 		return
 	}
-	// results
-	rs := g.havocResults(v, c, st)
-	if returnsNonNilError(name) && len(rs) == 1 && rs[0].So.K == KIface {
-		g.assume(not(app("=", rs[0].S, "inil")))
+	// protobuf getters: nil-safe field access
+	if isNilSafeGetter(name) && !c.IsInvoke() && len(c.Args) == 1 && v != nil {
+		if g.pbGetter(v, c, st) {
+			return
+		}
 	}
+	// functions of the loaded program that only log (checked on their SSA body)
+	if f, ok := c.Value.(*ssa.Function); ok && f.Blocks != nil && f.Signature.Results().Len() == 0 && g.closureIsLoggingOnly(f, 0) {
+		g.assumed["logging-only function (body scanned: no stores, sends or non-logging calls), trusted not to panic: "+trimName(name)] = true
+		return
+	}
+	// results
+	if returnsNonNilError(name) && v != nil {
+		// a fresh error value without Is/Unwrap methods (fmt.Errorf with %w is not used in this code base)
+		a := g.stGet(st, "alloc", SMath)
+		id := g.define(v.Name()+".err", SMath, app("+", a, "1"))
+		g.stSet(st, "alloc", SMath, id)
+		g.setVal(v, app("ibox", fmt.Sprint(tagPlainErr), id))
+		g.assumed["fresh plain error (no Is/Unwrap): "+trimName(name)] = true
+		return
+	}
+	g.havocResults(v, c, st)
 	if f, ok := c.Value.(*ssa.Function); ok && f.Name() == "init" && f.Synthetic != "" {
 		return // initialiser of an imported package: does not touch this package's state
 	}
@@ -732,3 +756,38 @@ func (g *Gen) execMapDelete(c *ssa.CallCommon, in ssa.Instruction, st State, rea
 }
 
 func (g *Gen) lenModel(t, x T, which string, st State) {}
+
+// pbGetter models (*T).GetF() of generated protobuf code: nil receiver gives the zero value,
+// otherwise the field F.
+func (g *Gen) pbGetter(v ssa.Value, c *ssa.CallCommon, st State) bool {
+	f, ok := c.Value.(*ssa.Function)
+	if !ok {
+		return false
+	}
+	recv := g.val(c.Args[0])
+	pt, ok := c.Args[0].Type().Underlying().(*types.Pointer)
+	if !ok {
+		return false
+	}
+	stT, ok := pt.Elem().Underlying().(*types.Struct)
+	if !ok {
+		return false
+	}
+	fname := strings.TrimPrefix(f.Name(), "Get")
+	for i := 0; i < stT.NumFields(); i++ {
+		fl := stT.Field(i)
+		if fl.Name() != fname {
+			continue
+		}
+		fso := g.te.sortOf(fl.Type())
+		if fso.Name != g.te.sortOf(v.Type()).Name {
+			return false
+		}
+		h := g.stGet(st, g.fieldHeapName(pt.Elem(), fl.Name()), &Sort{K: KRaw, Name: "(Array Int " + fso.Name + ")"})
+		t := g.setVal(v, app("ite", app("=", recv.S, "0"), g.te.zero(fso), app("select", h, recv.S)))
+		g.assumeTypeInv(t, st)
+		g.assumed["protobuf getter modelled as nil-safe field read: "+trimName(f.String())] = true
+		return true
+	}
+	return false
+}
